@@ -228,6 +228,8 @@ static bool runScenario(Scenario& sc, Rng& r, bool stress, const std::string& ta
   bool quiescent = false;
   for (int w = 0; w < 60000; w++) {   // 60000 x 0.5 ms = 30 s real time
     if (allFinal()) { quiescent = true; break; }
+    // far beyond any progress bound in virtual time: the verdict (lost request) does not change by waiting longer in real time
+    if (vnow() - lastFaultT.load() > 3600LL * 1000 * MS && w > 2000) break;
     vbus::realSleepUs(500);
   }
   int64_t endT = vnow();
